@@ -167,34 +167,7 @@ impl Ord for JsonValue {
 // ---------------------------------------------------------------------------------------------------------
 // the functions that compare / sort with that order
 // ---------------------------------------------------------------------------------------------------------
-#[verifier::external_body] pub struct Context { _p: () }
-// Get::get is assumed to be a FUNCTION of the getter and the context (standing assumption, as in C03/C10/C11/C13)
-pub trait Get {
-    spec fn get_spec(&self, value: &Context) -> Option<JsonValue>;
-//@@ fn get.get = src/selection.rs :: trait Get :: fn get
-//@@ ret r
-//@@ header
-        ensures r == self.get_spec(value),
-//@@ endfn
-}
-pub open spec fn arg(args: Seq<Rc<dyn Get>>, value: &Context, i: int) -> Option<JsonValue> {
-    if 0 <= i < args.len() { args[i].get_spec(value) } else { None }
-}
-pub trait Arguments {
-    spec fn args(&self) -> Seq<Rc<dyn Get>>;
-//@@ fn arguments.apply = src/functions_definitions.rs :: trait Arguments :: fn apply
-//@@ ret r
-//@@ header
-        ensures r == arg(self.args(), value, index as int),
-//@@ endfn
-}
-impl Arguments for Vec<Rc<dyn Get>> {
-    open spec fn args(&self) -> Seq<Rc<dyn Get>> { self@ }
-//@@ fn args.apply = src/functions_definitions.rs :: impl Arguments for Vec<Rc<dyn Get>> :: fn apply
-//@@ post spec "apply(i) is the value of the i-th argument getter on the context, nothing when there is no i-th argument"
-//@@ safety C07 C04
-//@@ endfn
-}
+//@@ include prelude/fnargs.rs
 impl vstd::std_specs::convert::FromSpecImpl<bool> for JsonValue {
     open spec fn obeys_from_spec() -> bool { true }
     open spec fn from_spec(v: bool) -> Self { JsonValue::Boolean(v) }
